@@ -491,6 +491,9 @@ inline py::tuple StructSequenceGetFields(const py::handle& object) {
 }
 
 inline void TotalOrderSort(py::list& list) {  // NOLINT[runtime/references]
+    // NOTE: a failed in-place sort leaves the list partially reordered, keep the original order to
+    // be able to fall back to it.
+    const py::list original = py::getattr(list, Py_Get_ID(copy))();
     try {
         // Sort directly if possible.
         if (static_cast<bool>(EVALUATE_WITH_LOCK_HELD(PyList_Sort(list.ptr()), list)))
@@ -519,6 +522,10 @@ inline void TotalOrderSort(py::list& list) {  // NOLINT[runtime/references]
                     // Found incomparable user-defined key types.
                     // The keys remain in the insertion order.
                     PyErr_Clear();
+                    if (PyList_SetSlice(list.ptr(), 0, PyList_GET_SIZE(list.ptr()), original.ptr()) <
+                        0) [[unlikely]] {
+                        throw py::error_already_set();
+                    }
                 } else [[unlikely]] {
                     std::rethrow_exception(std::current_exception());
                 }
